@@ -669,6 +669,13 @@ def corpus():
     c('x.override_grad', area=100.0, max_grad=1e5)
     c('x.override_both', area=-100.0, max_grad=2e6, max_slew=2e10)
     c('x.delay', area=10.0, delay=1.5e-4)
+    # round-2 findings (a) and (c): exactly triangular request with asymmetric ramps whose binary64 sum rounds
+    # up (rejected today, accepted with the proposed eps-tolerant test); over-determined request whose
+    # `duration` is ignored today (rejected with the proposed consistency test)
+    c('f.a.triangle_asym', area=1.0, duration=3e-4, rise_time=1e-4, fall_time=2e-4)
+    c('f.a.triangle_sym', area=1.0, duration=6e-5, rise_time=3e-5)
+    c('f.c.duration_ignored', area=1.0, duration=1e-3, flat_time=2e-4, rise_time=1e-4)
+    c('f.c.duration_consistent', area=1.0, duration=4e-4, flat_time=2e-4, rise_time=1e-4)
     # non-positive ramps / negative flat time must be rejected (final timing validation)
     c('w.neg_flat', amplitude=1000.0, flat_time=-1e-4)
     c('w.neg_flat_fa', flat_area=1.0, flat_time=-1e-3)
